@@ -20,6 +20,7 @@ import (
 	"fmt"
 
 	"github.com/cloudwego/eino/internal/serialization"
+	"github.com/cloudwego/eino/internal/verifhook"
 )
 
 func dagChannelBuilder(controlDependencies []string, dataDependencies []string, zeroValue func() any, emptyStream func() streamReader) channel {
@@ -150,6 +151,13 @@ func (ch *dagChannel) get(isStream bool) (any, bool, error) {
 	valueList := make([]any, 0, len(ch.Values))
 	for _, value := range ch.Values {
 		valueList = append(valueList, value)
+	}
+	if verifhook.On {
+		valueList = valueList[:0]
+		for _, k := range verifhook.SortedKeys(ch.Values) {
+			valueList = append(valueList, ch.Values[k])
+		}
+		verifhook.Order(len(valueList), nil, func(i, j int) { valueList[i], valueList[j] = valueList[j], valueList[i] })
 	}
 	if len(valueList) == 0 {
 		if isStream {
